@@ -31,6 +31,7 @@ type Report struct {
 	Tier     string
 	Obls     []*Obligation
 	Notes    []string
+	Extra    map[string]interface{} // additional coverage keys (thorough tier)
 	Floors   []string
 	start    time.Time
 	keys     map[string]int
@@ -225,6 +226,9 @@ func (r *Report) Finish(verifDir string, meta Meta, seed int64, cmd string) int 
 		"notes":               r.Notes,
 		"known_findings":      len(r.Obls) - discharged - len(viol),
 		"exhaustive":          false,
+	}
+	for k, v := range r.Extra {
+		cov[k] = v
 	}
 	ev := map[string]interface{}{
 		"property_id": r.Property,
